@@ -4,6 +4,7 @@ package harness
 
 import (
 	"fmt"
+	"k8s.io/apimachinery/pkg/labels"
 	"sort"
 	"strings"
 
@@ -185,6 +186,11 @@ func oracleC02(r *OpRun) {
 				sig := "ghost-at-quiescence"
 				if r.onlyListed(mid, k) {
 					sig = "two-list-gap"
+				} else if b.Kube.NsLabel != nil && r.nsStoppedMatchingBeforeNsInformer(mid, b.Kube, strings.SplitN(k, "/", 2)[0]) {
+					// same family one level up: the namespace was in the preliminary namespace list of
+					// CreateInformers and stopped matching before the monitor's namespace informer was
+					// started, which therefore never reports its removal
+					sig = "namespace-two-list-gap"
 				}
 				r.e.Viol("C02", "S3", sig, "execution #%d of %s: snapshot of %s shows %s@%d which is not in the quiet cluster (or no longer matches)", x.N, parts[0], parts[1], k, rv)
 			}
@@ -211,6 +217,39 @@ func (r *OpRun) startedAfterDrain(x *Exec) bool {
 		}
 	}
 	return x.StartSeq > last && x.StartSeq > lastWriteSeq(r.o.API)
+}
+
+// nsStoppedMatchingBeforeNsInformer: the namespace does not match the binding's label selector now, and the
+// write that ended the match was acknowledged before the monitor's namespace informer made its own first list.
+func (r *OpRun) nsStoppedMatchingBeforeNsInformer(mid string, b *KubeBinding, ns string) bool {
+	sel := labels.SelectorFromSet(b.NsLabel)
+	stopped := int64(0)
+	matching := false
+	for _, w := range r.o.API.Log {
+		if w.GVR != gvrNS || w.Obj.GetName() != ns {
+			continue
+		}
+		now := string(w.Type) != "DELETED" && sel.Matches(labels.Set(w.Obj.GetLabels()))
+		if matching && !now {
+			stopped = w.Seq
+		}
+		matching = now
+	}
+	if matching || stopped == 0 {
+		return false
+	}
+	started, ok := r.obs.NsiStart[mid]
+	if !ok {
+		return true // never started
+	}
+	// the informer's own list: the first list of namespaces after its start
+	first := int64(1 << 62)
+	for _, l := range r.o.API.Lists {
+		if l.GVR == gvrNS && l.Seq >= started && l.Seq < first {
+			first = l.Seq
+		}
+	}
+	return stopped < first
 }
 
 // noInformerFor: the monitor has no informer for that namespace that was ever loaded.
